@@ -504,7 +504,8 @@ class Size:
         """
         size_pattern = re.compile(
             r"^(((?P<value>\d+(\.\d+)?)(?P<unit>"
-            fr"{'|'.join([unit.value for unit in UnitEnum])}))|0)\Z")
+            fr"{'|'.join([unit.value for unit in UnitEnum])}))|0)\Z",
+            re.ASCII)
         match = size_pattern.search(string)
         if not match:
             raise CaptionReadSyntaxError(
